@@ -18,6 +18,14 @@ var c02Templates = []tmpl{
 	{"compound-assign-to-captured-at-a-later-slot", `mk := func() { p := 1; q := 2; total := a; add := func(v) { total += v; return total }; return add }; f := mk(); f(b); f(c)`, func(a, b, c, n int64) tOut { return outInt(a + b + c) }},
 	{"compound-minus-and-times-on-captured", `mk := func() { p := 7; q := 9; acc := a; step := func(v) { acc -= v; acc *= 2; return acc + p - 7 }; return step }; f := mk(); f(b)`, func(a, b, c, n int64) tOut { return outInt((a - b) * 2) }},
 	{"compound-assign-captured-two-levels-up", `mk := func() { u := 5; total := a; mid := func() { w := 6; return func(v) { total += v + w - 6; return total } }; return mid() }; f := mk(); f(b); f(c) + 0`, func(a, b, c, n int64) tOut { return outInt(a + b + c) }},
+	{"closure-in-a-block-captures-the-block-variable-that-shadows-an-outer-one", `mk := func() { x := a; f := nil; if true { x := b; f = func() { x = x + 1; return x } }; return [f, x] }; p := mk(); p[0]() * 1000 + p[0]() - p[1]`, func(a, b, c, n int64) tOut {
+		return outInt((b+1)*1000 + (b + 2) - a)
+	}},
+	{"closure-recursion-through-its-own-captured-name", `mk := func() { fact := nil; fact = func(k) { if k <= 1 { return 1 }; return k * fact(k - 1) }; return fact }; mk()(4) + a`, func(a, b, c, n int64) tOut { return outInt(24 + a) }},
+	{"closure-over-a-const", `mk := func() { const k = 7; return func() { return k + a } }; mk()()`, func(a, b, c, n int64) tOut { return outInt(7 + a) }},
+	{"closure-in-a-switch-case", `mk := func(s) { f := nil; switch s { case 1: y := a; f = func() { y = y + 1; return y } default: y := b; f = func() { y = y - 1; return y } }; return f }; g := mk(1); h := mk(2); g() + g() + h()`, func(a, b, c, n int64) tOut {
+		return outInt((a + 1) + (a + 2) + (b - 1))
+	}},
 	{"depth1-by-reference", `mk := func() { x := a; g := func() { return x }; x = b; return g }; mk()()`, func(a, b, c, n int64) tOut { return outInt(b) }},
 	{"depth1-write-visible-to-definer", `mk := func() { x := a; set := func() { x = b }; set(); return x }; mk()`, func(a, b, c, n int64) tOut { return outInt(b) }},
 	{"depth1-param-capture", `mk := func(p) { return func(q) { return p - q } }; mk(a)(b)`, func(a, b, c, n int64) tOut { return outInt(a - b) }},
